@@ -53,6 +53,9 @@ CONTAINER_METHODS = {"append", "pop", "remove", "insert", "add", "index", "count
                      "discard", "get", "items", "keys", "values", "setdefault", "update", "clear"}
 
 
+NUMBER_METHODS = {"limit_denominator", "is_integer", "as_integer_ratio", "conjugate", "bit_length"}   # pure
+
+
 class Ev:
     """evaluation of a pure fragment over representatives; `hook(ev, call)` may supply the value of a call
     (return NotImplemented to fall through); `attr_hook(ev, node)` the value of attribute reads."""
@@ -411,6 +414,10 @@ class Ev:
             if isinstance(e.func, ast.Attribute) and e.func.attr in CONTAINER_METHODS:
                 recv = self.ev(e.func.value)
                 if isinstance(recv, (list, set, tuple, dict)) and hasattr(recv, e.func.attr):
+                    return getattr(recv, e.func.attr)(*args, **kwargs)
+            if isinstance(e.func, ast.Attribute) and e.func.attr in NUMBER_METHODS:
+                recv = self.ev(e.func.value)
+                if isinstance(recv, (int, float, Fr)) and not isinstance(recv, bool) and hasattr(recv, e.func.attr):
                     return getattr(recv, e.func.attr)(*args, **kwargs)
             raise Undecided("call " + U(e.func))
         raise Undecided(U(e)[:50])
